@@ -408,7 +408,7 @@ Proof. vm_compute. split; reflexivity. Qed.
    kind 2 (Log): the domain is one NewLog returns, and log_case_ok / log_case_borderline.
    The predicates of kinds 1 and 2 are unfolded in C17_check_meaning_scales. *)
 From Coq Require Import Qround.
-From MM Require Import Proofs.CheckBase Proofs.CheckC17Base Proofs.CheckC17Lin Proofs.CheckC17Log Proofs.CheckC17Win Proofs.CheckC17.
+From MM Require Import Proofs.CheckBase Proofs.CheckC17Base Proofs.CheckC17Parse Proofs.CheckC17Lin Proofs.CheckC17Log Proofs.CheckC17Win Proofs.CheckC17.
 Section CheckSound.
 Local Open Scope Z_scope.
 Local Open Scope Q_scope.
@@ -419,9 +419,9 @@ Theorem C17_check_ok_sound :
      exists cs rest, parse_C17 line = Some cs /\
        line = (17 :: (match cs with CFind _ => 0 | CLin _ => 1 | CLog _ => 2 end) :: rest)%Z /\
        match cs with
-       | CFind c => p_flcase rest = Some (c, [])
-       | CLin c => p_sccase rest = Some (c, [])
-       | CLog c => p_sccase rest = Some (c, []) /\ log_pre (sc_base c) (sc_mn c) (sc_mx c) = true
+       | CFind c => p_flcase rest = Some (c, []) /\ flcase_layout c rest
+       | CLin c => p_sccase rest = Some (c, []) /\ sccase_layout c rest
+       | CLog c => p_sccase rest = Some (c, []) /\ sccase_layout c rest /\ log_pre (sc_base c) (sc_mn c) (sc_mx c) = true
        end /\
        case_ok cd cs) /\
   (forall (cd : Z) (cs : c17case), case_ok cd cs <->
@@ -443,7 +443,25 @@ Theorem C17_check_ok_sound :
     match find_level o cnt (fc_guess c) with
     | FL_ok l => fc_ok c = 1 /\ fc_lev c = l | FL_fail => fc_ok c = 0 /\ fc_lev c = 0 | FL_fuel => False end)%Z) /\
   (forall (tol : Q -> Q) (exp : list Q) (obs : list xreal), obs_close tol exp obs <->
-   (Forall2 (fun e o => exists q, o = XFin q /\ (Qabs (q - e) <= tol e)%Q) exp obs)%Z).
+   (Forall2 (fun e o => exists q, o = XFin q /\ (Qabs (q - e) <= tol e)%Q) exp obs)%Z) /\
+  (forall (c : flcase) (rest : list Z), flcase_layout c rest <->
+   (rest = [o_max (fc_o c); o_minlevel (fc_o c); o_maxlevel (fc_o c); fc_guess c; fc_wlo c; Z.of_nat (length (fc_vs c))]
+    ++ fc_vs c ++ [fc_left c; fc_right c; fc_ok c; fc_lev c])%Z) /\
+  (forall (c : sccase) (rest : list Z), sccase_layout c rest <->
+   (let ob := sc_ob c in
+    exists bmn bmx major minor levws bnmin bnmax bm0 bm1 bnmin2 bnmax2 major3,
+    rest = [sc_base c; bmn; bmx; o_max (sc_o c); o_minlevel (sc_o c); o_maxlevel (sc_o c); so_st ob]
+    ++ (Z.of_nat (length major) :: major) ++ (Z.of_nat (length minor) :: minor)
+    ++ (Z.of_nat (length (so_levels ob)) :: concat levws)
+    ++ [o_max (so_no ob); o_minlevel (so_no ob); o_maxlevel (so_no ob); so_nst ob; bnmin; bnmax; bm0; bm1; so_nst2 ob; bnmin2; bnmax2; so_st3 ob]
+    ++ (Z.of_nat (length major3) :: major3) /\
+    decode_bits bmn = XFin (sc_mn c) /\ decode_bits bmx = XFin (sc_mx c) /\
+    so_major ob = map decode_bits major /\ so_minor ob = map decode_bits minor /\
+    Forall2 lev_layout (so_levels ob) levws /\
+    so_nmin ob = decode_bits bnmin /\ so_nmax ob = decode_bits bnmax /\ so_map0 ob = decode_bits bm0 /\ so_map1 ob = decode_bits bm1 /\
+    so_nmin2 ob = decode_bits bnmin2 /\ so_nmax2 ob = decode_bits bnmax2 /\ so_major3 ob = map decode_bits major3)%Z) /\
+  (forall (lv : levobs) (w : list Z), lev_layout lv w <->
+   (exists bs, w = lv_level lv :: lv_count lv :: lv_st lv :: Z.of_nat (length bs) :: bs /\ lv_ticks lv = map decode_bits bs)%Z).
 Proof. exact check_ok_sound_full. Qed.
 Print Assumptions C17_check_ok_sound.
 
